@@ -7,7 +7,7 @@ Called from props/c02.py (consume_input on) and props/c17.py (consume_input off)
 import multiprocessing as mp
 import time
 
-from . import common, glrcases, gramgen
+from . import common, glrcases, gramgen, refparse
 
 FUEL_QUICK = 60000
 FUEL_THOROUGH = 400000
@@ -79,7 +79,12 @@ def worker(job):
     out["grammar"] = impl.model_grammar(gi)
     out["terms"] = impl.dump_terms(gi)
     out["stop"] = impl.stop_id(gi)
-    out["table"] = impl.dump_table(p.table, gi)
+    try:
+        out["table"] = impl.dump_table(p.table, gi)
+    except AssertionError:
+        # state ids that are not positions in table.states: the model identifies the two
+        out["gerr"] = "table-not-positional"
+        return out
     out["lexdis"] = bool(p.lexical_disambiguation)
     out["ws"] = [ord(ch) for ch in (p.ws or "")]
     out["layout"] = []
@@ -87,6 +92,8 @@ def worker(job):
         lgi = impl.GInfo(g)
         out["layout"] = [impl.dump_table(p.layout_parser.table, lgi)]
     out["nullable"] = any(len(pr[1]) == 0 for pr in out["grammar"][1:])
+    out["plain"] = all(pr.prior == 10 and pr.assoc == 0 for pr in g.productions) and \
+        all(t.prior == 10 for t in gi.terms)
     n_to = 0
     for w in inputs:
         c = {"input": w, "rx": impl.rx_matrix(gi, w), "chars": impl.chars(w)}
@@ -222,6 +229,58 @@ def compare(r, c, mo):
     return "agree", None
 
 
+def property_failure(r, c):
+    """Does the impl's own behaviour on this case violate the text of C01/C02/C03/C17
+    (decided with the untrusted reference enumerator; only used to choose how a
+    model/impl disagreement is reported)?  Returns a description or None."""
+    w = c["input"]
+    consume = r["opts"].get("consume_input", True)
+    if not r.get("plain") or r["lexdis"] or r["layout"] or r["opts"].get("position"):
+        return None
+    sk = glrcases.sk_ws(w, "".join(map(chr, r["ws"])))
+    try:
+        ref = refparse.Ref(r["grammar"], None, c["rx"], sk, len(w))
+        if c["status"] == "SyntaxError":
+            ok = ref.is_sentence() if consume else bool(ref.sentence_ends())
+            return "raises SyntaxError although %s is a sentence" % ("the input" if consume else "a prefix") \
+                if ok else None
+        if c["status"] != "forest" or c.get("cyclic", True):
+            return None
+        tp = topo(*c["graph"])
+        if tp is None:
+            return None
+        trees = common.model_run([(7, [tp, 2000])])[0]
+        if trees[0] != 1:
+            return None
+        if consume:
+            want = ref.sentence_trees(limit=500)
+        else:
+            want = [t for q, ts in sorted(ref.prefix_trees(limit=500).items()) for t in ts]
+    except refparse.TooMany:
+        return None
+    have = [refparse.shape_of_sx(t) for t in trees[1]]
+    hs, ws_ = set(have), set(want)
+    miss = [t for t in want if t not in hs]
+    extra = [t for t in have if t not in ws_]
+    if miss:
+        return "returns a forest that lacks %d derivation(s) of the input" % len(miss)
+    if extra:
+        return "returns a forest with a tree that is not a derivation of the input"
+    if len(have) != len(hs):
+        return "returns a forest in which a derivation appears more than once"
+    return None
+
+
+def baseline_same(r, c):
+    """the frozen baseline implementation behaves identically on this case (None: unknown)"""
+    job = (r["gname"], r["gtext"], [c["input"]], r["opts"])
+    res = common.baseline_run("lib.glrcorr", "worker", [job], timeout=120)
+    if res is None or res[0]["gerr"] or not res[0]["cases"]:
+        return None
+    b = res[0]["cases"][0]
+    return b["status"] == c["status"] and b.get("graph") == c.get("graph")
+
+
 def gen_jobs(rng, quick, consume):
     o1 = {"tables": 1, "consume_input": consume}
     o0 = {"tables": 0, "consume_input": consume}
@@ -270,10 +329,12 @@ def pyset_selftest(rng, n):
     return len(cases), bad
 
 
-def run(ctx, consume, known_bad=None):
-    """Runs the correspondence; reports disagreements as violations (no_input) unless
-    [known_bad](gtext, opts, input) says the surrounding check already reports the impl's
-    behaviour on that case as a property failure.  Returns the coverage sub-dict."""
+def run(ctx, consume):
+    """Runs the correspondence.  A disagreement is reported as a violation of the correspondence
+    glr_model_correspondence (no failing input) -- unless the impl's behaviour on that very case violates the
+    property text (decided by the reference enumerator) and is not the frozen baseline's
+    behaviour: then it is reported as a property violation with the input.
+    Returns the coverage sub-dict."""
     quick = ctx.quick()
     rng = ctx.rng
     t0 = time.time()
@@ -283,8 +344,10 @@ def run(ctx, consume, known_bad=None):
     t_impl = time.time() - t0
     fuel = FUEL_QUICK if quick else FUEL_THOROUGH
     mcases, meta = [], []
+    gerrs = {}
     for r in results:
         if r["gerr"]:
+            gerrs[r["gerr"]] = gerrs.get(r["gerr"], 0) + 1
             continue
         for c in r["cases"]:
             if c["status"] in ("skipped-after-timeouts",):
@@ -297,6 +360,7 @@ def run(ctx, consume, known_bad=None):
     st = {"glr_model_cases": 0, "glr_model_agree": 0, "glr_model_disagree": 0, "skipped": {},
           "forests": 0, "rejects": 0, "lexical_ambiguity_cases": 0, "nullable_grammar_cases": 0,
           "cyclic_forests": 0, "forest_sizes": {"1-5": 0, "6-20": 0, "21-100": 0, ">100": 0},
+          "grammars": len(results), "grammars_not_built": gerrs,
           "solutions_checked": 0, "timing_s": {"impl": round(t_impl, 1), "model": round(t_model, 1)}}
     stat_cases, stat_meta = [], []
     for (r, c), mo in zip(meta, outs):
@@ -309,9 +373,19 @@ def run(ctx, consume, known_bad=None):
             st["nullable_grammar_cases"] += 1
         if kind == "DISAGREE":
             st["glr_model_disagree"] += 1
-            if known_bad is not None and known_bad(r["gtext"], r["opts"], c["input"]):
-                st["skipped"]["impl-violates-property-here"] = \
-                    st["skipped"].get("impl-violates-property-here", 0) + 1
+            rep = {"grammar": r["gtext"], "options": r["opts"], "input": c["input"]}
+            pf = None
+            if st["glr_model_disagree"] <= 25:
+                try:
+                    pf = property_failure(r, c)
+                    if pf is not None and baseline_same(r, c) is True:
+                        pf = None       # the pristine behaviour: the model should have reproduced it
+                except Exception:       # noqa
+                    pf = None
+            if pf is not None:
+                st["impl_property_failures"] = st.get("impl_property_failures", 0) + 1
+                ctx.violation("GLRParser.parse %s (the GLR driver model, like the baseline, behaves differently)"
+                              % pf, rep, key="glr-model-property")
                 continue
             ctx.violation("%s: GLR driver model and GLRParser.parse disagree: %s" % (KEY, detail),
                           {"correspondence": KEY, "grammar": r["gtext"], "options": r["opts"],
